@@ -1,26 +1,41 @@
 #!/usr/bin/env python3
-"""usage: seed_meta.py <id> <property> <what> <needs> <caught_by>   -- writes seeded/<id>/meta.json from the logs of tools/seed_eval.sh"""
+"""usage: seed_meta.py <id> [<property> <what> <needs>]
+Writes seeded/<id>/meta.json from seeded/<id>/desc.json (property, what, needs: written when the
+three extra arguments are given) and from the logs left by tools/seed_eval.sh (crate tests with the
+change, demo with the change, ./check verdicts against the changed tree)."""
 import json, os, re, sys, glob
-sid, prop, what, needs, caught = sys.argv[1:6]
+sid = sys.argv[1]
 d = os.path.join('/verif/seeded', sid)
-def tail(p, rx):
+dp = os.path.join(d, 'desc.json')
+if len(sys.argv) >= 5:
+    json.dump({"property": sys.argv[2], "what": sys.argv[3], "needs": sys.argv[4]}, open(dp, 'w'), indent=1)
+desc = json.load(open(dp))
+def grep(p, rx):
     try:
-        return [l.strip() for l in open(p) if re.search(rx, l)][-6:]
+        return [l.strip()[:300] for l in open(p, errors='replace') if re.search(rx, l)]
     except OSError:
         return []
-checks = {}
+checks, caught = {}, []
 for p in sorted(glob.glob(os.path.join(d, 'check_*.log'))):
-    lines = [l.strip()[:300] for l in open(p) if l.strip()]
-    checks[os.path.basename(p)[6:-4]] = lines[-3:]
-tests = tail(os.path.join(d, 'tests_with_change.log'), r'test result')
-demo = tail(os.path.join(d, 'demo_with_change.log'), r'test result|FAILED|panicked')
+    cid = os.path.basename(p)[6:-4]
+    summary = grep(p, r'tier=(quick|thorough) seed=')[-1:]
+    viol = grep(p, r'^VIOLATION')
+    checks[cid] = {"summary": summary, "violation": viol}
+    if viol:
+        kind = "correspondence/proof only (no-failing-input-found)" if 'no-failing-input-found' in viol[0] else ("oracle, found by the search tier" if '-search.json' in viol[0] else "oracle with a concrete replay")
+        m = re.search(r'disagreements (\d+)\), oracle failures (\d+) \(known (\d+)\)', summary[0]) if summary else None
+        extra = (" (%s model/impl disagreements, %d new oracle failures)" % (m.group(1), int(m.group(2)) - int(m.group(3)))) if m else ""
+        caught.append("%s quick: %s%s" % (cid, kind, extra))
+missed = [c for c in checks if not checks[c]["violation"]]
+tests = grep(os.path.join(d, 'tests_with_change.log'), r'test result')
+demo = grep(os.path.join(d, 'demo_with_change.log'), r'test result|FAILED|panicked')
 meta = {
-    "id": sid, "property": prop, "what": what, "needs": needs,
-    "existing_tests": "pass" if tests and all(' 0 failed' in t for t in tests) else "see tests_with_change.log",
+    "id": sid, "property": desc["property"], "what": desc["what"], "needs": desc["needs"],
+    "existing_tests": ("pass (%d test binaries)" % len(tests)) if tests and all(' 0 failed' in t for t in tests) else "NOT all passing - see tests_with_change.log",
     "demo": "fails with the change" if any('FAILED' in x or 'failed' in x for x in demo) else "see demo_with_change.log",
-    "caught_by": caught,
-    "ran": {"confirm": "tools/seed_eval.sh (patch applied in scratch worktree /tmp/seed-<cxx>: crate tests, then the demo)",
-            "crate_tests_with_change": tests, "demo_with_change": demo[:4], "checks_against_changed_tree": checks},
+    "caught_by": ("; ".join(caught) if caught else "MISSED") + ((" — not flagged by: " + ", ".join(missed)) if missed and caught else ""),
+    "ran": {"confirm": "tools/seed_eval.sh: patch applied in scratch worktree /tmp/seed-<cxx> at /repo HEAD: crate tests, then the demo, then VERIF_REPO=<worktree> ./check <ids>",
+            "crate_tests_with_change": tests[-6:], "demo_with_change": demo[:4], "checks_against_changed_tree": checks},
 }
 json.dump(meta, open(os.path.join(d, 'meta.json'), 'w'), indent=1)
-print("wrote", os.path.join(d, 'meta.json'))
+print(sid, "->", meta["caught_by"][:160])
